@@ -248,9 +248,9 @@ func IsDeactivated(document did.Document) bool {
 
 // GetProtectedHeaderString retrieves the string value associated with the specified key from JwtProtectedHeaders.
 // It returns the value as a string and a boolean indicating whether the key was found and its value was a string.
-// If JwtProtectedHeaders is nil or the key is not found or its value is not a string, it returns an empty string and false.
+// If the metadata or JwtProtectedHeaders is nil or the key is not found or its value is not a string, it returns an empty string and false.
 func (m *ResolveMetadata) GetProtectedHeaderString(key string) (string, bool) {
-	if m.JwtProtectedHeaders == nil {
+	if m == nil || m.JwtProtectedHeaders == nil {
 		return "", false
 	}
 	value, ok := m.JwtProtectedHeaders[key]
@@ -264,7 +264,8 @@ func (m *ResolveMetadata) GetProtectedHeaderString(key string) (string, bool) {
 // GetProtectedHeaderChain retrieves a certificate chain from JwtProtectedHeaders for the specified key.
 // It returns the chain and a boolean indicating whether the key was found and its value was a certificate chain.
 func (m *ResolveMetadata) GetProtectedHeaderChain(key string) (*cert.Chain, bool) {
-	if m.JwtProtectedHeaders == nil {
+	// resolve metadata is optional: callers may pass nil
+	if m == nil || m.JwtProtectedHeaders == nil {
 		return nil, false
 	}
 	value, ok := m.JwtProtectedHeaders[key]
